@@ -483,6 +483,17 @@ func defaultMembers(tier string, cfg gen.Config) []member {
 			out = append(out, member{name: "default " + pos + " " + sp.String(), cfg: cfg, root: place(sp, pos)})
 		}
 	}
+	// an object default that lists only SOME of the declared properties (the others keep their zero value / their own default)
+	out = append(out, member{name: "default listing some of the declared properties", cfg: cfg, root: &fam.Spec{Kind: "object", Props: []*fam.Prop{{Label: "size", Spec: &fam.Spec{Kind: "object", Default: "partial",
+		Props: []*fam.Prop{{Label: "w", Concrete: "width", Spec: &fam.Spec{Kind: "integer"}, Required: true}, {Label: "h", Concrete: "height", Spec: &fam.Spec{Kind: "integer"}, Required: true}, {Label: "u", Concrete: "unit", Spec: &fam.Spec{Kind: "string", Default: "scalar"}}}}}}}})
+	// an object default on a reference that points BACK to a definition still being generated (Alpha -> Beta -> Alpha): the literal is
+	// the struct literal of the finished type all the same
+	{
+		beta := &fam.Spec{Kind: "object", Ref: "$defs", ConcreteDef: "Beta", Props: []*fam.Prop{{Label: "owner", Concrete: "owner", Spec: &fam.Spec{RefRootOf: "#/$defs/Alpha", Kind: "object", Default: "refname"}}}}
+		alpha := &fam.Spec{Kind: "object", Ref: "$defs", ConcreteDef: "Alpha", Props: []*fam.Prop{{Label: "nm", Concrete: "name", Spec: &fam.Spec{Kind: "string"}, Required: true}, {Label: "b", Concrete: "beta", Spec: beta}}}
+		out = append(out, member{name: "default on a reference back to a definition in progress", cfg: cfg, tag: "default on a cyclic reference",
+			root: &fam.Spec{Kind: "object", Props: []*fam.Prop{{Label: "a", Spec: alpha, Required: true}}}})
+	}
 	// defaults of properties that sit INSIDE the branches of a composition: the merged allOf struct and each anyOf branch type decode
 	// their own properties and apply their defaults like any other object
 	dprop := func(l string) *fam.Prop {
